@@ -780,11 +780,11 @@ for _text_limit in ("maxstring", "maxother"):
         try:
             _IN_PROGRESS.set(_get_in_progress() | {instance_mark})
 
-            for invariant in instance.__class__.__invariants__:
+            for invariant in getattr(instance.__class__, "__invariants__", ()):
                 _assert_invariant(contract=invariant, instance=instance)
         finally:
             instance_mark.active = False
-""", """        for invariant in instance.__class__.__invariants__:
+""", """        for invariant in getattr(instance.__class__, "__invariants__", ()):
             _assert_invariant(contract=invariant, instance=instance)
 """),
     ],
@@ -855,6 +855,45 @@ for _text_limit in ("maxstring", "maxother"):
             assigned_name = "icontract_assigned_{}".format(unique)
 """, """            read_assigned_name = "read_assigned"
             assigned_name = "assigned"
+"""),
+    ],
+    "mutants/c14_fix_deferring_new_names_its_first_parameter_again": [
+        (CHK, """    def deferring(*args: Any, **kwargs: Any) -> Any:
+        \"\"\"Call the ``__new__`` which follows the class holding the copy in the method resolution order.\"\"\"
+        # (The class is not taken as a named parameter: any name might be a keyword of the constructor.)
+        klass = args[0]
+""", """    def deferring(klass: Any, *more: Any, **kwargs: Any) -> Any:
+        \"\"\"Call the ``__new__`` which follows the class holding the copy in the method resolution order.\"\"\"
+        args = (klass,) + more
+"""),
+    ],
+    "mutants/c14_fix_borrowed_constructor_needs_invariant_lists_again": [
+        (CHK, """                for invariant in getattr(instance.__class__, "__invariants__", ()):
+                    _assert_invariant(contract=invariant, instance=instance)
+
+                return result
+""", """                for invariant in instance.__class__.__invariants__:
+                    _assert_invariant(contract=invariant, instance=instance)
+
+                return result
+"""),
+    ],
+    "seeded/C03_r7_mark_kept_when_constructor_body_raises": [
+        (CHK, """                result = func(*args, **kwargs)
+
+                # (A constructor might be re-used as-is in an unrelated class, ``__init__ = Contracted.__init__``.
+""", """                result = func(*args, **kwargs)
+            except Exception:
+                # The constructor failed, so the object has never been constructed. It stays marked: whatever is still
+                # called on the half-built object on the way out (*e.g.*, ``__del__`` or the clean-up of the caller)
+                # must not check the invariants which were never established.
+                raise
+            except BaseException:
+                mark.active = False
+                raise
+
+            try:
+                # (A constructor might be re-used as-is in an unrelated class, ``__init__ = Contracted.__init__``.
 """),
     ],
     "seeded/C04_r3_async_pre_returns_at_first_failed_group": [
